@@ -50,7 +50,7 @@ def _case(draw, tier):
         (3, ops.delete_op(ppool)),
         (1, ops.REOPEN))
     return {"cfg": cfg, "contents": [{"hex": "6f31"}, {"hex": "6f32"}], "docs": docs,
-            "ops": draw(st.lists(op, min_size=2, max_size=30)),
+            "ops": draw(st.lists(ops.on_instances(op), min_size=2, max_size=30)),
             # environment variant: a file system with coarse (1 hour) timestamp granularity
             "coarse_mtime": draw(st.sampled_from([False, False, True]))}
 
